@@ -106,6 +106,10 @@ def check(sql, dialect, with_names=()):
   if re.search(r'UNION\s+ALL\s*/\* nil \*/', sql) or re.search(r'/\* nil \*/[^;]*?MONAD = 0\s*UNION\s+ALL', sql):
     problems.append('the `/* nil */` stub of a rule proven empty is left as an arm of a UNION ALL')
   code = ' '.join(t if k != 'str' else "''" for k, t, p in toks)
+  # a clause keyword with nothing after it
+  m = re.search(r'\b(WHERE|FROM|GROUP BY|ORDER BY|HAVING|ON)\s*(?=$|;|\)|\b(?:WHERE|GROUP|ORDER|LIMIT|UNION|HAVING)\b)', code)
+  if m:
+    problems.append('clause %s has no body' % m.group(1))
   for pat in PLACEHOLDERS:
     m = re.search(pat, code)
     if m:
